@@ -43,4 +43,30 @@ def imageBox (m : Mat) (pts : List (Rat × Rat)) : RectQ :=
 def pdfMatrix (fm : Mat) : Mat :=
   ⟨1000 * fm.a, 1000 * fm.b, 1000 * fm.c, 1000 * fm.d, 1000 * fm.e, 1000 * fm.f⟩
 
+/-- CID-keyed CFF fonts: a glyph of font dictionary `fd` is drawn in the coordinate system of that
+dictionary; "the font dictionary matrix is applied first, the font matrix second" (cff.Outlines
+doc, Adobe TN 5176 §  FDArray), and PDF glyph space units are 1000 × the result. -/
+def cidImage (fd fm : Mat) (p : Rat × Rat) : Rat × Rat :=
+  let q := image fm (image fd p)
+  (1000 * q.1, 1000 * q.2)
+
+/-- bounding box of the images of a point set under an arbitrary map -/
+def imageBoxF (f : Rat × Rat → Rat × Rat) (pts : List (Rat × Rat)) : RectQ :=
+  match pts with
+  | [] => ⟨0, 0, 0, 0⟩
+  | _ =>
+    let q := pts.map f
+    ⟨minQ (q.map (·.1)), minQ (q.map (·.2)), maxQ (q.map (·.1)), maxQ (q.map (·.2))⟩
+
+/-- horizontal advance in PDF glyph space units of a glyph of design width `w` under the linear
+part `[a b c d]` of the composed map, measured along the (possibly slanted) baseline as
+`GlyphWidthPDF` defines it: `w · (a − b·c/d) · 1000` (`w · a · 1000` when `d` vanishes) -/
+def cidWidthPDF (fd fm : Mat) (w : Rat) : Rat :=
+  let a := fd.a * fm.a + fd.b * fm.c
+  let b := fd.a * fm.b + fd.b * fm.d
+  let c := fd.c * fm.a + fd.d * fm.c
+  let d := fd.c * fm.b + fd.d * fm.d
+  let absd := if d < 0 then -d else d
+  w * ((if absd > 1 / 1000000 then a - b * c / d else a) * 1000)
+
 end SfntV.Metrics.Spec
